@@ -330,6 +330,21 @@ func (e *Engine) externIntrinsic(st *State, fr *Frame, fn *ssa.Function, args []
 		return r, true
 	case "log.Printf":
 		return nil, true
+	case "sync/atomic.LoadInt64", "sync/atomic.LoadInt32":
+		// sequential model: an atomic load is a load (assumption A-seq)
+		e.UsedAssumed[full+" (atomic load/store modelled as a plain load/store of the cell: sequential reasoning)"] = true
+		return e.load(st, args[0], fn.Signature.Results().At(0).Type(), e.pos(pos)), true
+	case "sync/atomic.AddInt32", "sync/atomic.AddInt64":
+		e.UsedAssumed[full+" (atomic add modelled as a plain read-modify-write of the cell: sequential reasoning)"] = true
+		rt := fn.Signature.Results().At(0).Type()
+		cur := e.load(st, args[0], rt, e.pos(pos)).(*smt.Term)
+		nv := c.Add(cur, args[1].(*smt.Term))
+		e.store(st, args[0], rt, nv, e.pos(pos))
+		return nv, true
+	case "sync/atomic.StoreInt64", "sync/atomic.StoreInt32":
+		e.UsedAssumed[full+" (atomic load/store modelled as a plain load/store of the cell: sequential reasoning)"] = true
+		e.store(st, args[0], fn.Signature.Params().At(1).Type(), args[1], e.pos(pos))
+		return nil, true
 	}
 	return nil, false
 }
